@@ -17,12 +17,19 @@ def pinnedExchangeParse : ParseExc → Option Nat
   | .arrowInvalid => some 400
   | _ => none                -- `except pa.ArrowInvalid` only: everything else escaped
 
+/-- pinned: `except (KeyError, ValueError)` around `_deserialize_params`; anything else fell to `except Exception` -/
+def pinnedDeser : DeserExc → Option Nat
+  | .keyError | .valueError | .arrowInvalid | .typeError | .stopIteration => some 400
+  | _ => some 500
+
 /-- tables of the pinned tree (before the fixes) -/
 def pinned : Tables :=
   { VgiVerif.Gen.HttpStatus.tables with
     unaryParse := pinnedParse500
     initParse := pinnedParse500
     exchangeParse := pinnedExchangeParse
+    unaryDeser := pinnedDeser
+    initDeser := pinnedDeser
     readWrapsBatchValidation := false
     readWrapsKwargs := false
     readWrapsEmptyStream := false
